@@ -347,7 +347,7 @@ def oracle(case, impl, spec):
         return 'implementation transcript has %d steps, the case %d (crash/timeout?): %s' % (len(st), len(ops) + 1, st[-1][0][-60:])
     if len(sp) != len(st):
         return 'ledger transcript has %d steps, implementation %d' % (len(sp), len(st))
-    words, prev_want = set(), {}
+    words, prev_want, run_prev = set(), {}, True
     for n, f in enumerate(st):
         if len(f) != 11:
             return 'step %d: %s' % (n, f[0][-80:])
@@ -363,23 +363,28 @@ def oracle(case, impl, spec):
         # in it (no `r` before its `f`) was taken by a sweep; that is only legitimate for a managed object that
         # the collection could not reach - not a root, and (when a mark phase ran: alloc, alloc_root, c) not
         # among the words the stack scan was given.  (del_raw finalises its own target.)
-        deleted, roots_now = set(), {k for k, r in prev_want.items() if r == '1'}
+        # `cur` follows the registrations INSIDE the step (ids may be re-used within one step: spawned, deleted,
+        # spawned again with another flag), `deleted` the deletions issued and not yet followed by a new allocation
+        cur, deleted = dict(prev_want), set()
+        if op[0] in 'aA' and run_prev:
+            cur[int(op[1:])] = '1' if op[0] == 'A' else '0'
         for m_ in re.finditer(r'([rf])(\d+)|s(\d+):([01])|!', ev):
             if m_.group(1) == 'r':
-                deleted.add(int(m_.group(2)))
+                k = int(m_.group(2)); deleted.add(k); cur.pop(k, None)
             elif m_.group(3) is not None:
-                if m_.group(4) == '1':
-                    roots_now.add(int(m_.group(3)))
-                deleted.discard(int(m_.group(3)))
+                k = int(m_.group(3)); cur[k] = m_.group(4); deleted.discard(k)
             elif m_.group(1) == 'f':
                 k = int(m_.group(2))
                 if k in deleted or (op[0] == 'x' and op[1:] == str(k)):
+                    deleted.discard(k)
                     continue
-                if k in roots_now or (op == 'A%d' % k):
+                flag = cur.pop(k, None)
+                if flag == '1':
                     return 'step %d (%s): root object %d was reclaimed and finalised by a sweep' % (n, op, k)
-                if k in words and op[0] in 'aAc' and (k in prev_want or op[1:] == str(k)):
+                if flag is not None and k in words and op[0] in 'aAc':
                     return ('step %d (%s): object %d is referenced from the scanned stack words, yet the collection reclaimed '
                             'and finalised it (a live managed object dropped from the registry)' % (n, op, k))
+        run_prev = run == '1'
         prev_want = want
         if 'HOOKLOST' in mem:
             return 'step %d: harness hook on the stack scan no longer reached' % n
@@ -511,6 +516,9 @@ def corpus(b):
         '0:4,1:59|k0 a0 a1 c m0 m1',
         '0:4,1:59,2:114|k0.2 a0 a1 a2 k0 c m0 m1 m2',
         '0:10,1:21,2:32,3:43,4:54,5:65,6:76|k0.1.2.3.4.5.6 A2 A3 A4 A5 A6 a0 a1 k0 c m0 m1',
+        # ids re-used inside ONE step: 6 is spawned as a root temporary, deleted, spawned again as a managed
+        # temporary and then reclaimed by the nested collection its own allocation starts (outside a sweep)
+        '0:5818:1.3:7.6t,1:142:4:7.6t,2:7060:4.4:5rt.7r,3:184:4:5rt.7.6rt,4:514::6t.7r.5t,5:4576,6:874,7:6778689|k1.0 a0 a3 d0',
         # sweep compaction with wrap-around: unmarked entry at slot 4, cluster continues at 0,1
         '0:4,1:59,2:114,3:169|k0.1.2.3 a0 a1 a2 a3 k1.3 c m0 m1 m2 m3',
         # a swept owner deletes an object LATER in the pending list, and one that survives
